@@ -15,7 +15,10 @@ use super::try_sync_error::*;
 
 use std::fmt;
 use std::mem;
+#[cfg(not(feature = "verif-hooks"))]
 use std::sync::*;
+#[cfg(feature = "verif-hooks")]
+use crate::verif::sync::*;
 use std::collections::vec_deque::*;
 use std::result::{Result};
 
@@ -94,6 +97,14 @@ impl Scheduler {
     #[cfg(target_arch = "wasm32")]
     pub fn set_max_threads(&self, max_threads: usize) {
         // Webassembly does not support threads so we run synchronously
+    }
+
+    ///
+    /// (Verification hook) Changes the maximum number of threads without eagerly spawning or waking any
+    ///
+    #[cfg(feature = "verif-hooks")]
+    pub fn verif_set_max_threads(&self, max_threads: usize) {
+        *self.core.max_threads.lock().expect("Max threads lock") = max_threads;
     }
 
     ///
